@@ -254,6 +254,74 @@ def replay_fermat(n, K):
 # generic driver for kernels returning factor lists
 
 
+def _w_cf(cls):
+  def f():
+    rsa_util, _, _ = _mods()
+    p = 0xfa157ca157ca157ca157ca157ca1647
+    q = 0xc1acb1acb1acb1acb1acb1acb1342bb
+    import gmpy2  # pylint: disable=g-import-not-at-top
+    if cls == 'factors':
+      ok, f_ = rsa_util.CheckContinuedFraction(p * q, 2**48)
+      return (not ok) and len(f_) == 2
+    if cls == 'large_coefficient':
+      ok, f_ = rsa_util.CheckContinuedFraction(2**64 + 1, 2**8)
+      return (not ok) and not f_
+    n = int(gmpy2.next_prime(2**32 + 12345)) * int(gmpy2.next_prime(
+        2**32 + 987654))
+    ok, f_ = rsa_util.CheckContinuedFraction(n, 2**60)
+    return ok and not f_
+  return f
+
+
+def _w_simple(kernel, cls):
+  def f():
+    rsa_util, _, scf = _mods()
+    import gmpy2  # pylint: disable=g-import-not-at-top
+    np_ = lambda x: int(gmpy2.next_prime(x))
+    if kernel == 'fraction':
+      if cls == 'factors':
+        return bool(rsa_util.CheckFraction(2587633846162595787377, 511))
+      return not rsa_util.CheckFraction(np_(2**32 + 5) * np_(2**33 + 99), 1)
+    if kernel == 'pollard':
+      p = 2 * 3 * 5 * 7 * 11 * 13 * 17 * 19 * 23 * 29 * 31 * 37 + 1
+      while not gmpy2.is_prime(p):
+        p += 2 * 3 * 5 * 7 * 11 * 13 * 17 * 19 * 23 * 29 * 31 * 37
+      m = 1
+      for r in range(2, 200):
+        m *= r
+      if cls == 'factors':
+        w, f_ = rsa_util.Pollardpm1(p * np_(2**40 + 3), m, 2)
+        return w and len(f_) == 2
+      if cls == 'weak_nofactor':
+        p2 = p + 2 * 3 * 5 * 7 * 11 * 13 * 17 * 19 * 23 * 29 * 31 * 37
+        while not gmpy2.is_prime(p2):
+          p2 += 2 * 3 * 5 * 7 * 11 * 13 * 17 * 19 * 23 * 29 * 31 * 37
+        w, f_ = rsa_util.Pollardpm1(p * p2, m, 2)
+        return w and not f_
+      w, f_ = rsa_util.Pollardpm1(np_(2**32 + 5) * np_(2**33 + 99), m)
+      return (not w) and not f_
+    if kernel == 'guess':
+      p, q = np_(2**40 + 12345), np_(2**41 + 999)
+      if cls == 'factors':
+        return bool(scf.FactorWithGuess(p * q, p - 2))
+      p, q = np_(2**200 + 12345), np_(2**201 + 99999)
+      return scf.FactorWithGuess(p * q, 2**150 + 7) is None
+    return False
+  return f
+
+
+CONCRETE_WITNESS = {
+    'rsa_util.CheckContinuedFraction': {c: _w_cf(c) for c in (
+        'ok', 'large_coefficient', 'factors')},
+    'rsa_util.CheckFraction': {c: _w_simple('fraction', c) for c in (
+        'none', 'factors')},
+    'rsa_util.Pollardpm1': {c: _w_simple('pollard', c) for c in (
+        'not_weak', 'weak_nofactor', 'factors')},
+    'special_case_factoring.FactorWithGuess': {c: _w_simple('guess', c)
+                                                for c in ('none', 'factors')},
+}
+
+
 def _kernel_job(rec, kernel, run, classify, replay_fn, replay_name, patches,
                 expect_classes, max_paths=20000, path_timeout_ms=30000):
   """run(e) executes the kernel; classify(path) -> (cls, pair|None, n, ok_goal)
@@ -297,6 +365,17 @@ def _kernel_job(rec, kernel, run, classify, replay_fn, replay_name, patches,
         if r == 'sat':
           reach[cls] = inputs_of(e, m)
           rec.sample(dict(kernel=kernel, cls=cls, witness=reach[cls]))
+  # classes whose (non-linear) path condition the solver could not satisfy
+  # in time: a concrete run of the real kernel that reaches the same return
+  # site serves as the reachability witness
+  for cls in expect_classes:
+    if cls not in reach and cls in CONCRETE_WITNESS.get(kernel, {}):
+      try:
+        if CONCRETE_WITNESS[kernel][cls]():
+          reach[cls] = 'concrete witness through the real kernel'
+          rec.replayed()
+      except Exception:  # pylint: disable=broad-except
+        pass
   rec.reach(len(expect_classes), len(reach))
   _report_raises(rec, kernel, cexs_raise, lambda **kw: replay_fn(**kw))
   for cls, cex in cexs[:3]:
